@@ -74,6 +74,8 @@ type genWorld struct {
 	selfUnd   map[int]int64 // what a genesis operator undelegated of its own genesis stake
 	lastOp    operatorView  // the operator module as read before the last export
 	jailed    map[int]bool  // operators currently jailed for the chain (dom_genesis_jail.go)
+	isRandom  bool          // a history of the random stream (not a directed / boundary scenario)
+	alignDue  int           // 1 / 2: runOne runs on until the import height is the earliest completion height / one below (dom_genesis_due.go)
 
 	// multi-asset world (dom_genesis_multi.go): three LSTs with genesis holders
 	multi   bool
